@@ -110,6 +110,13 @@ struct Cfg {
     send_at_end: bool,
     /// a closed gate ring with probed channels
     ring: bool,
+    /// three neighbours of the gate ring try to send on their (transit) ring gate at 0.25 s: the
+    /// send is rejected with a panic, which their stereotype catches
+    bad_send: bool,
+}
+
+fn catch_panics() {
+    current().set_stereotyp(des::net::module::Stereotyp { on_panic_catch: true, ..Default::default() });
 }
 
 struct Tx {
@@ -165,6 +172,10 @@ struct Rx {
 }
 impl Module for Rx {
     fn at_sim_start(&mut self, _: usize) {
+        if self.cfg.bad_send {
+            catch_panics();
+            schedule_in(Message::default().kind(13), Duration::from_millis(250));
+        }
         if self.cfg.tasks {
             let (tx, mut rx) = tokio::sync::mpsc::channel::<Message>(16);
             self.tx = Some(tx);
@@ -179,6 +190,9 @@ impl Module for Rx {
         }
     }
     fn handle_message(&mut self, m: Message) {
+        if m.header().kind == 13 {
+            send(Message::default().kind(14).with_content(Tok::new(BODY)), "ring");
+        }
         if m.header().id == 1 {
             send(Message::default().kind(7).with_content(Zt::new()), "back");
         }
@@ -191,12 +205,17 @@ impl Module for Rx {
 struct Mid {
     _t: Tok,
     shutdown: bool,
+    bad: bool,
 }
 impl Module for Mid {
     fn at_sim_start(&mut self, _: usize) {
         // plain lookups of relatives (nothing is kept)
         let _ = current().parent().map(|p| p.path());
         let _ = current().child("no-such-child").is_err();
+        if self.bad {
+            catch_panics();
+            schedule_in(Message::default().kind(13), Duration::from_millis(250));
+        }
         if self.shutdown && SimTime::now() == SimTime::ZERO {
             schedule_in(Message::default().kind(9), Duration::from_secs_f64(1.5));
         }
@@ -209,6 +228,9 @@ impl Module for Mid {
     fn handle_message(&mut self, m: Message) {
         if m.header().kind == 9 {
             current().shutdow_and_restart_in(Duration::from_secs(2));
+        }
+        if m.header().kind == 13 {
+            send(Message::default().kind(14).with_content(Tok::new(BODY)), "ring");
         }
     }
 }
@@ -227,9 +249,9 @@ fn build(c: &Cfg) -> des::net::SimBuilder<()> {
         s.set_stack(|| Pel(Tok::new(PE)));
     }
     s.node("tx", Tx { _t: Tok::new(MODS), cfg: *c });
-    s.node("mid", Mid { _t: Tok::new(MODS), shutdown: c.shutdown });
+    s.node("mid", Mid { _t: Tok::new(MODS), shutdown: c.shutdown, bad: c.bad_send });
     s.node("rx", Rx { _t: Tok::new(MODS), cfg: *c, tx: None });
-    s.node("rx.child", Mid { _t: Tok::new(MODS), shutdown: false });
+    s.node("rx.child", Mid { _t: Tok::new(MODS), shutdown: false, bad: c.bad_send });
     if c.tasks {
         // nodes made from the library's building blocks, each holding counted state
         use des::net::blocks::{AsyncFn, HandlerFn, ModuleFn};
@@ -459,7 +481,7 @@ fn reference_trace() -> Result<u64, String> {
 }
 
 fn case_json(c: &Cfg, stop: Stop) -> Value {
-    json!({"policy": c.policy, "tasks": c.tasks, "shutdown": c.shutdown, "panic": c.panic, "burst": c.burst, "pes": c.pes, "send_at_end": c.send_at_end, "ring": c.ring,
+    json!({"policy": c.policy, "tasks": c.tasks, "shutdown": c.shutdown, "panic": c.panic, "burst": c.burst, "pes": c.pes, "send_at_end": c.send_at_end, "ring": c.ring, "bad_send": c.bad_send,
            "stop": match stop { Stop::NeverBuilt => json!("never_built"), Stop::Built => json!("built_not_started"), Stop::Stepped(k) => json!({"stepped": k}),
                                 Stop::MaxItr(k, o) => json!({"max_itr": k, "drop_app_first": o}), Stop::MaxTime(t) => json!({"max_time_tenths": t}), Stop::HookPanic(t) => json!({"hook_panic_tenths": t}) }})
 }
@@ -473,6 +495,7 @@ fn case_from(v: &Value) -> (Cfg, Stop) {
         pes: v["pes"].as_bool().unwrap(),
         send_at_end: v["send_at_end"].as_bool().unwrap_or(false),
         ring: v["ring"].as_bool().unwrap_or(false),
+        bad_send: v["bad_send"].as_bool().unwrap_or(false),
     };
     let s = &v["stop"];
     let stop = if s == "never_built" {
@@ -517,7 +540,7 @@ impl Property for C20 {
     }
     fn rule(&self, tier: Tier) -> String {
         format!(
-            "generated simulations: queue policy {{Drop, Queue(None), Queue(200 B)}} x tasks (timer-blocked, far-future, receive loop holding messages) on/off x shut-down-and-restarted transit module on/off x panicking receiver on/off x burst {:?} x processing elements on/off x messages emitted from at_sim_end on/off x a closed gate ring with probed channels on/off, \
+            "generated simulations: queue policy {{Drop, Queue(None), Queue(200 B)}} x tasks (timer-blocked, far-future, receive loop holding messages) on/off x shut-down-and-restarted transit module on/off x panicking receiver on/off x burst {:?} x processing elements on/off x messages emitted from at_sim_end on/off x a closed gate ring with probed channels on/off (once more with three ring neighbours whose send on their transit ring gate is rejected, the panic caught by their stereotype), \
              on a fixed topology with a parent/child pair and a ring of three busy channels through a transit gate; stopping points: builder dropped, built not started, started and stepped k events for k in 0..={}, max_itr(k) for every k up to the total + 1 in both drop orders (app first / profiler with remaining events first), max_time in {{0, 0.5, .., 4, 10, 60}} s (thorough: every 0.1 s up to 6 s), and (with processing elements) a panic of an element hook at 0.5 / 1 / 2 / 3.5 s that unwinds out of run() and is caught by the caller; \
              oracle: per-kind live-object counters (module states, task captures, message bodies of a sized and of a zero-sized type, processing elements, channel probes) all zero and no double drop after the last handle is gone; then a reference simulation must reproduce the trace it gave before anything else ran in the process (and the same in every worker process); \
              non-trivial = stopping point that leaves events, queued messages or blocked tasks behind",
@@ -529,7 +552,7 @@ impl Property for C20 {
         vec!["user-level reference cycles (a task capturing its own module handle) are outside the alphabet".into()]
     }
     fn required_features(&self, _tier: Tier) -> Vec<&'static str> {
-        vec!["stopped_with_remaining_events", "panic_of_an_element_hook_unwinds_out_of_run", "queue_policy_with_backlog", "ended_with_errors", "never_started", "stepped_without_finish", "restarted_module", "message_emitted_during_teardown", "closed_gate_ring_with_probes"]
+        vec!["stopped_with_remaining_events", "panic_of_an_element_hook_unwinds_out_of_run", "queue_policy_with_backlog", "ended_with_errors", "never_started", "stepped_without_finish", "restarted_module", "message_emitted_during_teardown", "closed_gate_ring_with_probes", "rejected_sends_on_neighbouring_transit_gates"]
     }
     fn explore(&self, ctx: &mut Ctx) {
         let baseline = match reference_trace() {
@@ -547,8 +570,8 @@ impl Property for C20 {
                 for shutdown in [false, true] {
                     for panic in [false, true] {
                         for &burst in &bursts {
-                            for (pes, send_at_end, ring) in [(false, false, false), (true, false, true), (false, true, false), (true, true, true)] {
-                                let c = Cfg { policy, tasks, shutdown, panic, burst, pes, send_at_end, ring };
+                            for (pes, send_at_end, ring, bad_send) in [(false, false, false, false), (true, false, true, false), (false, true, false, false), (true, true, true, false), (false, false, true, true)] {
+                                let c = Cfg { policy, tasks, shutdown, panic, burst, pes, send_at_end, ring, bad_send };
                                 if !ctx.mine() {
                                     continue;
                                 }
@@ -594,6 +617,9 @@ impl Property for C20 {
                                     }
                                     if ring {
                                         ctx.hit("closed_gate_ring_with_probes");
+                                    }
+                                    if bad_send {
+                                        ctx.hit("rejected_sends_on_neighbouring_transit_gates");
                                     }
                                     match check(&c, stop, baseline) {
                                         Ok((o, remaining)) => {
